@@ -56,6 +56,7 @@ var siteCodes = map[string]int{
 	"dispenseServer.Dispense:func#1":          26,
 	"Serve:func#1":                            27,
 	"Serve:Serve#1":                           28,
+	"blockedClientListener.Close:func#1":      32,
 }
 
 func recvTypeName(fd *ast.FuncDecl) string {
